@@ -626,7 +626,7 @@ func TestC18(t *testing.T) {
 		t.Fatal(err)
 	}
 	flt := c18Filter.On(col, fmt.Sprintf("exhaustive: every standard filter (%d) x receiver in the plain universe, and x (receiver, argument) pairs drawn from a reduced universe, with the receiver or the argument wrapped in a Drop, a nested Drop, a pointer, (arrays) with every element wrapped in a Drop, or (arrays) as a typed slice of any integer width or a fixed array - in every position, also where a string or a number is expected; metamorphic oracle: same result as unwrapped (type/inspect/json, which report the Go value by design, are unspecified). Distinct by construction", len(si.Filters)), true)
-	pu := plainUniverse()
+	pu := valueUniverse()
 	small := []string{"nil", "1", "2", "-1", "2.5", `"abc"`, `"a"`, `""`, "[3,1,2]", "[nil,1,nil]", "[mixed]", "[maps]", "{a:1,b:2}", "true"}
 	for _, f := range si.Filters {
 		for _, r := range pu {
